@@ -66,6 +66,8 @@ def run(tier):
     if tier == "thorough":
         # the property's "up to five persons" for the functions where it is affordable (all 120 row orders)
         groupsym.run_all(ck, 5, which=("eg", "sn", "bg", "wthh"))
+        # ... and for the Familiengemeinschaft: definitions at N=5 and all 119 row orders, spread over the cores
+        fgsym.run_order_obligations_parallel(ck, "C12", 5, excl, timeout=900)
     # second, independent engine: CrossHair on the same functions at N=3
     conds = [c for c in CONDS if tier == "thorough" or c != "check_bg"]
     if any(k.startswith("fg_id_numpy") for k in ck.not_encoded):
